@@ -1,4 +1,5 @@
 """C13 — valid messages with unknown header fields, flags or types are tolerated."""
+import random
 import C11 as lib
 from C11 import msg, pline, sline
 
@@ -116,13 +117,14 @@ def classify(case, impl_out):
 SHARDS = 8
 ENABLED = True
 LEVEL = "proof"
-LEVEL_TEXT = ("The full statement (unknown header field codes with any value are ignored; unknown flag bits are ignored; messages of "
-              "unknown type are dropped and the stream continues) is REFUTED on this tree for each of its three parts by machine-checked "
-              "witnesses: FieldCode and Type are closed serde_repr enums, flags go through BitFlags::from_bits, and the reader treats "
-              "the resulting error as fatal. What remains is PROVED: a stream of any number of messages built by the library (field "
-              "codes 1..9, flags <= 7, types 1..4) is framed and delivered one by one, in order, up to end of stream "
-              "(C13_known_stream_partial), and every such message alone is accepted (C13_known_message_partial). All 3 x (246+248+251) "
-              "cases are run on the real parser and on a live p2p connection.")
-LEVEL_NOTE = ("partial: the property does not hold on the unchanged tree (3 known-finding classes confirmed on the real code, through "
-              "Message::from_bytes and through a MessageStream). The partial theorems use the model of C11 plus the reader loop; the "
-              "socket is modelled by its contract (ordered bytes, EOF).")
+LEVEL_TEXT = ("Unknown header field codes and unknown flag bits (repaired by fix: 9e1c6e56 and 0d33c3d1): PROVED - C13_message_tolerant "
+              "(every message the reference reader of the specification accepts with a known type, with any number of unknown-code "
+              "fields carrying any valid value of any variant-free type and any flag bits, is accepted with the same header and body), "
+              "C13_unknown_field_ok / C13_unknown_flag_ok, and C13_stream_tolerant (every stream of such messages is framed and "
+              "delivered message by message to its end). Unknown message TYPES are still not skipped: C13_unknown_type_refuted and "
+              "C13_full_refuted stay, with C13_known_stream_partial / C13_known_message_partial for what the library builds. All "
+              "(247 codes x 8 values + 1200 random typed values + 248 flag sets + 252 types) cases run on the real parser and on a live connection.")
+LEVEL_NOTE = ("partial: messages of unknown type are rejected while framing and the reader stops (known finding unknown_type; needs a "
+              "representation change of message::Type). The tolerance theorems cover ignored values without nested variants and "
+              "without file descriptors (the reference reader makes no claim there; the model and the correspondence runs do "
+              "cover them). Socket modelled by its contract (ordered bytes, EOF).")
